@@ -14,8 +14,9 @@ import collections
 import multiprocessing as mp
 
 VERIF = os.path.dirname(os.path.dirname(os.path.abspath(__file__)))
-EVIDENCE_DIR = os.path.join(VERIF, "evidence")
-REPLAY_DIR = os.path.join(VERIF, "replays")
+_OUT = os.environ.get("PDPMC_OUT") or VERIF  # PDPMC_OUT: scratch output dir when trying seeded changes in a worktree
+EVIDENCE_DIR = os.path.join(_OUT, "evidence")
+REPLAY_DIR = os.path.join(_OUT, "replays")
 FINDINGS_FILE = os.path.join(VERIF, "known_findings.json")
 NWORKERS = int(os.environ.get("PDPMC_WORKERS", "16"))
 
